@@ -366,9 +366,13 @@ impl<'de> Deserialize<'de> for Image {
                         "missing size".to_owned(),
                     )));
                 };
-                let expected_size = channels * size.height * size.width;
+                let expected_size = size
+                    .height
+                    .checked_mul(size.width)
+                    .and_then(|pixels| pixels.checked_mul(channels));
                 let data_size = data.len();
-                if data_size != expected_size {
+                if expected_size != Some(data_size) {
+                    let expected_size = expected_size.unwrap_or(usize::MAX);
                     return Err(de::Error::custom(Error::ParseError(
                         "Image",
                         format!(
